@@ -303,6 +303,13 @@ func (f *fragmentList) build(in *layers.IPv4) (*layers.IPv4, error) {
 		debug.Printf("defrag: building - next is %d\n", currentOffset)
 	}
 
+	// The fragments were each checked with their own header length; the
+	// datagram gets the header of the completing fragment, which may be longer.
+	if int(in.IHL)*4+int(f.Highest) > IPv4MaximumSize {
+		return nil, fmt.Errorf("defrag: reassembled datagram would be too big "+
+			"(handcrafted? %d > %d)", int(in.IHL)*4+int(f.Highest), IPv4MaximumSize)
+	}
+
 	// TODO recompute IP Checksum
 	out := &layers.IPv4{
 		Version:    in.Version,
